@@ -1,7 +1,21 @@
 """Server-handshake family: C12 C13 C15 C17 and the server part of C16 (c16_server)."""
 from . import upgrade
 
-TABLE = {"C12": upgrade.c12, "C13": upgrade.c13, "C15": upgrade.c15, "C17": upgrade.c17}
+
+
+def c17(tier):
+    """Server + client boundary programs of this family (upgrade.c17), then - when the client-dial family provides it -
+    its client part (props_dial.c17_client_part: frames glued to the 101 response on every dial path), combined."""
+    rc = upgrade.c17(tier)
+    try:
+        from . import props_dial
+        part = getattr(props_dial, "c17_client_part", None)
+    except Exception:
+        part = None
+    return part(tier, rc) if part else rc
+
+
+TABLE = {"C12": upgrade.c12, "C13": upgrade.c13, "C15": upgrade.c15, "C17": c17}
 NOTE = ("Trusted: TLC, the bounds of the MC configs, the driver's fact reporting (request lines as handed to Upgrade, "
         "return values, ResponseWriter status/headers, operations on the hijacked connection, raw bytes written), "
         "harness-side SHA-1/base64 for the accept digest, the scripted transports. TLC itself parses the request's "
